@@ -14,8 +14,8 @@ from tools.vlib import Outcome, sx
 from tools.props import c15_gen as G
 
 MANIFEST = {
-    "level_text": "Coq theorems (Properties/C15.v, no axioms) about byte-level Gallina transcriptions (strings = UTF-8 byte lists, every Rust slice = a slice that returns Panic exactly when Rust panics) of every function of the analysis and generation code that slices a str by computed offsets, unwraps or recurses on substrings: for ALL well-formed UTF-8 input parse_type_structure (with all extract_* helpers, parse_two_type_params and the shared find_top_level_comma / split_top_level loop), extract_type_names, add_types_prefix (including its recursion under []), parse_rename_all, parse_rename (repaired restart offset), parse_validator_attributes including parse_message_from_content (repaired: char_indices), apply_naming_convention under all eight rules (repaired camelCase call-site guard) and event_name_to_function never panic and terminate with the stated fuel; the former counterexamples are positive theorems on the same witnesses. compute_variant_name (variant-rule repair, CamelCase arm guarded at the call site) returns for every rule and name although the crate's apply_to_variant(CamelCase) slices variant[..1]. No refutation and no class premise is left. The models are tied to the code on every run by executing both on the same adversarial strings (exhaustive short strings over an alphabet with 1-4 byte characters, multi-byte characters at every offset of attribute payloads, unbalanced type strings) and comparing value-or-PANIC.",
-    "level_note": "Partial. Proved: panic-freedom and termination of the string-index arithmetic (the mechanism the property names). Not modelled, only searched by the oracle streams (grammar-generated exotic items, /repo and registry sources with truncations/mutations, non-Rust text, each through the real CLI with exit status in {0,1} and through generate_from_config under catch_unwind; isolation of unparsable files compared on generated output modulo timestamp and declaration order): syn, Tera, walkdir, the AST walkers (command/struct/event/channel parsers; their indexing sites are length-guarded, listed in notes/C15.md), the generators, stack exhaustion on pathologically deep nesting. C15_total covers the fuelled string recursions, not the worklists (C07) or graph routines (C20). C15_isolated is checked at run time only, not stated in Coq. char::is_uppercase in the snake/kebab arms of apply_to_variant is exact on ASCII names only (value compared for ASCII names, outcome for all). Numeric parse of min/max is compared through a python transcription of Rust's u64/f64 grammar.",
+    "level_text": "Coq theorems (Properties/C15.v, no axioms) about byte-level Gallina transcriptions (strings = UTF-8 byte lists, every Rust slice = a slice that returns Panic exactly when Rust panics) of every function of the analysis and generation code that slices a str by computed offsets, unwraps or recurses on substrings: for ALL well-formed UTF-8 input parse_type_structure (with all extract_* helpers, parse_two_type_params and the shared find_top_level_comma / split_top_level loop), extract_type_names, add_types_prefix (including its recursion under []), parse_rename_all, parse_rename (repaired restart offset), parse_validator_attributes including parse_message_from_content (repaired: char_indices), apply_naming_convention under all eight rules (repaired camelCase call-site guard) and event_name_to_function never panic and terminate with the stated fuel; the former counterexamples are positive theorems on the same witnesses. compute_variant_name (variant-rule repair, CamelCase arm guarded at the call site) returns for every rule and name although the crate's apply_to_variant(CamelCase) slices variant[..1]. No refutation and no class premise is left. At project level a model of the per-file loop with abstract walkers carries the isolation clause and whole-pipeline termination as theorems. The models are tied to the code on every run by executing both on the same adversarial strings (exhaustive short strings over an alphabet with 1-4 byte characters, multi-byte characters at every offset of attribute payloads, unbalanced type strings) and comparing value-or-PANIC.",
+    "level_note": "Partial. Proved for all inputs: panic-freedom and termination of the string-index arithmetic (the mechanism the property names; explicit size bound C15_depth_bound: below 2^31 - 1 bytes the i32 depth counter of find_top_level_comma cannot overflow), the guarded indexing of syn sequences in extract_emit_event / is_tauri_command / is_tauri_parameter_type (C15_walker_indexing, with an exhaustive small-scope correspondence stream), and at project level, for ARBITRARY syn-level walkers (parameters of the model): isolation of files that fail to read or parse (C15_isolated, C15_isolated_all: generated result unchanged, every such file reported, stderr exactly their reports) and termination of the whole analysis model - load loop, resolve_types_lazily (generic worklist, potential fuel), type ordering (C15_total_pipeline, C15_pipeline_never_out_of_fuel; the only non-Ok outcome is a walkdir error = exit 1). Not modelled, only searched by the oracle streams (grammar-generated exotic items, /repo and registry sources with truncations/mutations, non-Rust text, each through the real CLI with exit status in {0,1} and through generate_from_config under catch_unwind; isolation compared on generated output modulo timestamp): syn, Tera, walkdir, the bodies of the AST walkers beyond the three indexing sites (they are the abstract extractors of the project model), the generators, stack exhaustion on pathologically deep nesting. The project model is tied to the code only through the isolation and project streams (its extractors are abstract, so it is not extracted). char::is_uppercase in the snake/kebab arms of apply_to_variant is exact on ASCII names only (value compared for ASCII names, outcome for all). Numeric parse of min/max is compared through a python transcription of Rust's u64/f64 grammar.",
     "technique": "Rocq/Coq proof over hand-written model + correspondence check (extracted OCaml vs Rust harness) + CLI fuzzing oracle",
     "design_ref": "DESIGN.md section 5 C15, section 2.2",
 }
@@ -212,6 +212,75 @@ def eval_tskey(strings):
         if ok:
             ok = impl == c["s"] + "|." + c["s"] or (impl.startswith('"') and impl.endswith('"]'))
         outs.append(Outcome({"fn": "tskey", "s": c["s"]}, True, ok, None, {"impl": impl}, nontrivial=nontrivial(c["s"])))
+    return outs
+
+
+def walker_cases():
+    """exhaustive small scope for the guarded indexing in the AST walkers"""
+    cases = []
+    for method in ("emit", "emit_to", "emit_all", "emit_filter"):
+        for k in range(0, 6):
+            for name_literal in (True, False):
+                args = []
+                for i in range(k):
+                    is_name = (method == "emit" and i == 0) or (method == "emit_to" and i == 1)
+                    args.append("name_var" if (is_name and not name_literal) else '"a%d"' % i)
+                src = "fn f(app: tauri::AppHandle) { app.%s(%s); }\n" % (method, ", ".join(args))
+                cases.append({"kind": "emit", "method": method, "k": k, "name_literal": name_literal, "src": src})
+    segs = ["tauri", "command", "ipc", "x"]
+    import itertools as it
+    for n in (1, 2, 3):
+        for p in it.product(segs, repeat=n):
+            for lead in (False, True):
+                path = ("::" if lead else "") + "::".join(p)
+                cases.append({"kind": "attr", "leading": lead, "segs": list(p), "src": "#[%s]\nfn f() {}\n" % path})
+    tsegs = ["tauri", "ipc", "AppHandle", "State", "Channel", "Request", "Window", "WebviewWindow", "Manager", "X"]
+    for n in (1, 2, 3):
+        for p in it.product(tsegs, repeat=n):
+            cases.append({"kind": "param", "segs": list(p), "src": "#[tauri::command]\nfn f(p0: %s) {}\n" % "::".join(p)})
+    return cases
+
+
+def eval_walker(cases):
+    for i, c in enumerate(cases):
+        c["id"] = i
+    obs = vlib.run_harness("c15-walker", cases, per_case_timeout=20)
+    sexps = []
+    for c in cases:
+        if c["kind"] == "emit":
+            sexps.append(sx(["emit", c["method"] == "emit_to", c["k"]]))
+        elif c["kind"] == "attr":
+            sexps.append(sx(["attr", c["leading"], c["segs"]]))
+        else:
+            sexps.append(sx(["param", c["segs"]]))
+    res = vlib.run_runner("c15-walker", sexps)
+    outs = []
+    for c, o, m in zip(cases, obs, res):
+        case = {k: v for k, v in c.items() if k != "id"}
+        case["fn"] = "walker"
+        if o.get("skipped") or o.get("skip"):
+            continue
+        if "out" not in o:
+            outs.append(Outcome(case, False, False, detail={"impl": o}))
+            continue
+        impl = o["out"]
+        ip = isinstance(impl, dict)
+        tag, val = model_outcome(m)
+        if ip or tag != "ok":
+            corr, expect = (ip and tag == "panic"), tag
+        elif c["kind"] == "emit":
+            # the model says which argument is the name; the call yields an event iff the method is emit/emit_to,
+            # enough arguments are present and the name argument is a string literal
+            sel = val[0] if val else None
+            expect = ["a%s" % sel[0]] if (sel and c["method"] in ("emit", "emit_to") and c["name_literal"]) else []
+            corr = impl == expect
+        elif c["kind"] == "attr":
+            expect = 1 if val == "true" else 0
+            corr = impl == expect
+        else:
+            expect = [] if val == "true" else ["p0"]
+            corr = impl == expect
+        outs.append(Outcome(case, corr, not ip, None, {"impl": impl, "expected_from_model": expect}, nontrivial=True))
     return outs
 
 
@@ -442,6 +511,8 @@ def replay_items(rep, payload):
             outs = eval_prefix([c["s"]])
         elif c.get("fn") == "tskey":
             outs = eval_tskey([c["s"]])
+        elif c.get("fn") == "walker":
+            outs = eval_walker([dict(c)])
         elif c.get("fn") == "naming":
             outs = eval_naming([(c["rule"], c["name"])])
         elif c.get("kind") == "isolation":
@@ -485,6 +556,7 @@ def run(rep):
     dist["type"] = add_chunked(rep, "type", eval_type, list(dict.fromkeys(G.type_strings(rep.tier, rng))))
     dist["prefix"] = add_chunked(rep, "prefix", eval_prefix, list(dict.fromkeys(G.prefix_strings(rep.tier, rng))))
     dist["naming"] = add_chunked(rep, "naming", eval_naming, list(dict.fromkeys(G.naming_cases(rep.tier, rng))))
+    dist["walker"] = add_chunked(rep, "walker", eval_walker, walker_cases())
     dist["tskey"] = add_chunked(rep, "tskey", eval_tskey, list(dict.fromkeys(G.key_strings(rep.tier, rng))))
     ics = isolation_cases(rep, rng)
     pcs = project_cases(rep, rng)
